@@ -148,3 +148,33 @@ func describeGs(gs []gInfo) string {
 	}
 	return sb.String()
 }
+
+
+// waitQuiescentOrSpinning is waitQuiescent for the end of an attack: when no quiescent state is
+// reached it looks at what keeps running. A goroutine of the attack that is running or runnable
+// at the end of two successive windows of polls (thousands of scheduling rounds of this very
+// process) while everything else is parked is not finishing up: it spins. spinning describes it.
+func waitQuiescentOrSpinning(window int) (q quiesceResult, ok bool, spinning string) {
+	for round := 0; round < 2; round++ {
+		if q, ok = waitQuiescent(window, nil); ok {
+			return q, true, ""
+		}
+		busy := ""
+		for _, g := range goroutineDump() {
+			if g.State == "running" && !isVegetaG(g) {
+				continue // the caller itself
+			}
+			if !parkedState(g.State) {
+				if !isVegetaG(g) {
+					return q, false, "" // something of the harness is still at work: no verdict
+				}
+				busy += g.Frames + "\n\n"
+			}
+		}
+		if busy == "" {
+			return q, false, ""
+		}
+		spinning = busy
+	}
+	return q, false, spinning
+}
